@@ -667,6 +667,11 @@ func (r *FileRestorer) applyDecorations(node ast.Node, name string, decorations 
 
 		// for newline decorations and also line-comments, add a newline
 		if isLineComment || isNewline {
+			if isNewline {
+				// Advance the cursor one more byte, so the line break falls after the end of the
+				// previous token and not at it (applySpace does the same).
+				r.cursor++
+			}
 			lineOffset := int(r.cursor) - r.base // remember lines are relative to the file base
 			r.lines = append(r.lines, lineOffset)
 			r.cursor++
